@@ -531,7 +531,10 @@ def flat_statements(fn):
             if isinstance(n, ast.If):
                 out.append("if " + ast.unparse(n.test))
                 walk(n.body)
-                walk(n.orelse)
+                if n.orelse:
+                    out.append("else")
+                    walk(n.orelse)
+                out.append("end")
             elif isinstance(n, (ast.Assign, ast.Return, ast.Delete, ast.AugAssign)):
                 out.append(ast.unparse(n))
             else:
@@ -557,8 +560,11 @@ def rolling_sum_updates(tree):
     fns = [n for n in tree.body if isinstance(n, ast.FunctionDef) and n.name == "_rolling_sum_or_mean_1d"]
     if len(fns) != 1:
         raise Unsupported("_rolling_sum_or_mean_1d not found exactly once")
-    names = ("group_sums", "group_comp", "total", "window_sum")
-    rows = []
+    names = ("group_sums", "group_comp", "total", "comp", "window_sum")
+    helper = [n for n in tree.body if isinstance(n, ast.FunctionDef) and n.name == "_compensated_add"]
+    if len(helper) != 1:
+        raise Unsupported("_compensated_add not found exactly once")
+    rows = ["def _compensated_add(" + ", ".join(a.arg for a in helper[0].args.args) + ")"] + flat_statements(helper[0]) + ["def _rolling_sum_or_mean_1d"]
 
     def mentions(node):
         return any(isinstance(x, ast.Name) and x.id in names for x in ast.walk(node))
@@ -581,7 +587,13 @@ def rolling_sum_updates(tree):
                 else:
                     rows.append("end")
             elif isinstance(n, (ast.For, ast.While)):
+                mark = len(rows)
+                rows.append("for " + ast.unparse(n.target) + " in " + ast.unparse(n.iter) if isinstance(n, ast.For) else "while " + ast.unparse(n.test))
                 walk(n.body)
+                if len(rows) == mark + 1:
+                    del rows[mark:]
+                else:
+                    rows.append("end")
     walk(fns[0].body)
     return [r.replace('"', "'") for r in rows]
 
